@@ -238,6 +238,235 @@ def _is_xor_expr(f: Func, e) -> bool:
     return isinstance(e, ast.Call) and isinstance(e.func, ast.Attribute) and e.func.attr == 'symmetric_difference'
 
 
+# --- literal components of a real score ------------------------------------
+#
+# A return such as `return (main, sub, 1, 0, self.quality)` states two facts
+# about the parameter sets as constants.  They are decided from the branch
+# outcomes that dominate the return: every test leaf that speaks about the
+# parameters must be one of the enumerated emptiness idioms; the four
+# combinations (range parameters empty?, media-type parameters empty?) that
+# are consistent with those outcomes are enumerated, and the literal must be
+# right in each of them.
+
+_SOURCE_ATTR = ('main_type', 'subtype', 'params', 'params', 'quality')
+_COLLECTION_CALLS = ('frozenset', 'set', 'list', 'tuple', 'dict', 'sorted', 'len', 'bool')
+
+
+def _params_side(f: Func, e, other: str, depth=0) -> Optional[str]:
+    """'self' / 'other' when `e` is the parameter mapping of one side, a
+    collection built from it, or a local bound once to such a value."""
+    if depth > 8:
+        return None
+    e = _unwrap_cast(e)
+    if isinstance(e, ast.Attribute) and e.attr == 'params' and isinstance(e.value, ast.Name):
+        if e.value.id == 'self':
+            return 'self'
+        return 'other' if e.value.id == other else None
+    if isinstance(e, ast.Call) and not e.keywords and len(e.args) == 1 and isinstance(e.func, ast.Name) and e.func.id in _COLLECTION_CALLS:
+        return _params_side(f, e.args[0], other, depth + 1)
+    if isinstance(e, ast.Call) and not e.args and not e.keywords and isinstance(e.func, ast.Attribute) \
+            and e.func.attr in ('keys', 'items', 'values', 'copy'):
+        return _params_side(f, e.func.value, other, depth + 1)
+    if isinstance(e, ast.Name):
+        binds = _assignments(f.node, e.id)
+        if len(binds) == 1 and binds[0][1] is not None:
+            return _params_side(f, binds[0][1], other, depth + 1)
+    return None
+
+
+def _bool_leaves(e):
+    if isinstance(e, ast.BoolOp):
+        for v in e.values:
+            yield from _bool_leaves(v)
+    elif isinstance(e, ast.UnaryOp) and isinstance(e.op, ast.Not):
+        yield from _bool_leaves(e.operand)
+    else:
+        yield e
+
+
+def _mentions_params(roles: _Roles, e) -> bool:
+    try:
+        return 'params' in roles.features(e, control=False)[0]
+    except UnknownIdiom:
+        return True
+
+
+def _emptiness_leaf(roles: _Roles, other: str, leaf) -> Optional[Tuple[str, bool]]:
+    """(subject, sense) for the understood emptiness tests: subject is 'self' /
+    'other' (one side's parameters), 'xor' (symmetric difference of the names)
+    or 'and' (their intersection); the leaf being true means the subject is
+    non-empty when `sense`, empty otherwise."""
+    def subject(e):
+        s = _params_side(roles.f, e, other)
+        if s:
+            return s
+        attrs, ops = roles.features(e, control=False)
+        if attrs == {'params'} and not ops - {'xor', 'and', 'len'}:
+            if 'xor' in ops and 'and' not in ops:
+                return 'xor'
+            if 'and' in ops and 'xor' not in ops:
+                return 'and'
+        return None
+
+    if isinstance(leaf, ast.Compare):
+        if len(leaf.ops) != 1:
+            return None
+        l, r, op = leaf.left, leaf.comparators[0], type(leaf.ops[0])
+        if _is_const_num(l) and not _is_const_num(r):
+            l, r = r, l
+            op = {ast.Lt: ast.Gt, ast.Gt: ast.Lt, ast.LtE: ast.GtE, ast.GtE: ast.LtE}.get(op, op)
+        if not (_is_const_num(r, (0, 1)) and isinstance(l, ast.Call) and isinstance(l.func, ast.Name) and l.func.id == 'len'
+                and len(l.args) == 1 and not l.keywords):
+            return None
+        s = subject(l.args[0])
+        if s is None:
+            return None
+        if r.value == 0:
+            sense = {ast.Eq: False, ast.LtE: False, ast.NotEq: True, ast.Gt: True}.get(op)
+        else:
+            sense = {ast.Lt: False, ast.GtE: True}.get(op)
+        return None if sense is None else (s, sense)
+    s = subject(leaf)
+    return (s, True) if s else None
+
+
+def _eval3(e, leaf_value):
+    if isinstance(e, ast.BoolOp):
+        vals = [_eval3(v, leaf_value) for v in e.values]
+        if isinstance(e.op, ast.And):
+            return False if any(v is False for v in vals) else (True if all(v is True for v in vals) else None)
+        return True if any(v is True for v in vals) else (False if all(v is False for v in vals) else None)
+    if isinstance(e, ast.UnaryOp) and isinstance(e.op, ast.Not):
+        v = _eval3(e.operand, leaf_value)
+        return None if v is None else (not v)
+    return leaf_value(e)
+
+
+def _xor_empty(se: bool, oe: bool) -> Optional[bool]:
+    if se and oe:
+        return True
+    if se != oe:
+        return False
+    return None           # both non-empty: depends on the names
+
+
+def _and_empty(se: bool, oe: bool) -> Optional[bool]:
+    return True if (se or oe) else None
+
+
+def _parameter_cases(cfg, roles: _Roles, other: str, nid: int):
+    """-> (feasible (self empty?, other empty?) combinations at node `nid`,
+    direct facts {'xor'|'and': 'empty'|'nonempty'}, unreadable test nodes)."""
+    guards = []
+    for n in cfg.live_nodes():
+        if n.kind != 'test' or not _mentions_params(roles, n.ast):
+            continue
+        for (y, l) in cfg.succ[n.id]:
+            if l in ('T', 'F') and flow.dominated_by_edge(cfg, nid, (n.id, y, l)):
+                guards.append((n, l == 'T'))
+    kinds: Dict[int, Optional[Tuple[str, bool]]] = {}
+    unreadable = []
+    direct: Dict[str, str] = {}
+    for n, truth in guards:
+        for leaf in _bool_leaves(n.ast):
+            if not _mentions_params(roles, leaf):
+                continue
+            k = kinds[id(leaf)] = _emptiness_leaf(roles, other, leaf)
+            if k is None:
+                unreadable.append(n)
+                continue
+            t = implied(n.ast, truth, lambda e, leaf=leaf: e is leaf)
+            if t is not None and k[0] in ('xor', 'and'):
+                direct[k[0]] = 'nonempty' if t == k[1] else 'empty'
+    feasible = []
+    for se in (True, False):
+        for oe in (True, False):
+            def leaf_value(e, se=se, oe=oe):
+                k = kinds.get(id(e))
+                if k is None:
+                    return None
+                subj, sense = k
+                empty = {'self': se, 'other': oe, 'xor': _xor_empty(se, oe), 'and': _and_empty(se, oe)}[subj]
+                if empty is None:
+                    return None
+                return (not empty) if sense else empty
+            if all(_eval3(n.ast, leaf_value) in (truth, None) for n, truth in guards):
+                feasible.append((se, oe))
+    return feasible, direct, unreadable
+
+
+def _describe_cases(feasible) -> str:
+    w = {True: 'none', False: 'some'}
+    return '; '.join('range has %s / media type has %s' % (w[se], w[oe]) for se, oe in feasible) or 'no consistent case'
+
+
+def _literal_components(run, ms: Func, cfg, roles: _Roles, other: str, ret: ast.Return, found, exact_vals, lower):
+    elts = ret.value.elts
+    nids = cfg.nodes_for(ret)
+    if not nids:
+        raise AnchorError('match_score: score return unreachable')
+    encl_attrs: Set[str] = set()
+    for i in roles.enclosing_ifs(ret):
+        encl_attrs |= roles.features(i.test, control=False)[0]
+    cases = None
+    for idx, c in enumerate(found):
+        if c != 'const':
+            continue
+        e = elts[idx]
+        val = ast.literal_eval(e)
+        if idx in (0, 1, 4):
+            if _SOURCE_ATTR[idx] in encl_attrs:
+                raise UnknownIdiom('match_score: literal component %d of %s under a test of %s' % (idx + 1, short(ret, 80), _SOURCE_ATTR[idx]))
+            run.fail('score component %d is the %s, derived from %s - not a literal' % (idx + 1, ROLE_DOC[idx], _SOURCE_ATTR[idx]), ms, ret.value,
+                     witness=['component %d = %s in %s' % (idx + 1, short(e, 20), short(ret, 100))],
+                     runtime_witness='ranges that differ in criterion %d score the same' % (idx + 1))
+            continue
+        if cases is None:
+            feasible, direct, unreadable = None, {}, []
+            for nid in nids:
+                f2, d2, u2 = _parameter_cases(cfg, roles, other, nid)
+                feasible = f2 if feasible is None else feasible + [c2 for c2 in f2 if c2 not in feasible]
+                direct.update(d2)
+                unreadable += u2
+            cases = (feasible, direct, unreadable)
+        feasible, direct, unreadable = cases
+        if not feasible:
+            raise UnknownIdiom('match_score: the tests guarding %s contradict each other' % short(ret, 80))
+        if idx == 2:
+            # (two non-empty sets without a common name differ)
+            verdicts = {direct['xor'] == 'empty'} if 'xor' in direct else {
+                False if (_xor_empty(se, oe) is None and direct.get('and') == 'empty') else _xor_empty(se, oe) for se, oe in feasible}
+            what = 'score component 3 is the exact parameter-name match: a literal is right only where the symmetric difference of ' \
+                   'both parameter-name sets is decided (cases reaching this return: %s)' % _describe_cases(feasible)
+            wit = "Accept: 'text/plain;q=0, text/plain;format=flowed' with media type 'text/plain;format=flowed;charset=utf-8': the bare " \
+                  'range claims an exact parameter match and outranks the more specific one'
+        else:
+            verdicts = {direct['and'] == 'empty'} if 'and' in direct else {_and_empty(se, oe) for se, oe in feasible}
+            what = 'score component 4 is the number of shared parameter names: a literal is right only where that number is ' \
+                   'decided (cases reaching this return: %s)' % _describe_cases(feasible)
+            wit = 'a range sharing parameters with the media type scores like one sharing none'
+        if len(verdicts) != 1 or None in verdicts:
+            if unreadable:
+                raise UnknownIdiom('match_score: test %s guarding %s' % (short(unreadable[0].ast, 60), short(ret, 80)))
+            run.fail(what, ms, ret.value, witness=['component %d = %s in %s' % (idx + 1, short(e, 20), short(ret, 100))], runtime_witness=wit)
+            continue
+        empty = verdicts.pop()
+        if idx == 2:
+            if not exact_vals:
+                raise UnknownIdiom('match_score: no computed exact-parameter component to compare the literal %r with' % (val,))
+            want = {b if empty else a for a, b in exact_vals}
+        else:
+            if not empty:
+                raise UnknownIdiom('match_score: literal count of a non-empty intersection in %s' % short(ret, 80))
+            want = {0}
+        lower(idx, val)
+        run.check(val in want and len(want) == 1,
+                  'where the %s is known to be %s the literal score component %d has the value the computed component takes (%s)' % (
+                      'symmetric difference of the parameter names' if idx == 2 else 'intersection of the parameter names',
+                      'empty' if empty else 'non-empty', idx + 1, '/'.join(repr(w) for w in sorted(want))),
+                  ms, ret.value, witness=['component %d = %r' % (idx + 1, val)], runtime_witness=wit)
+
+
 def r1_score_order(run):
     p = run.project
     ms = p.func(MEDIATYPES + '._MediaRange.match_score')
@@ -258,60 +487,105 @@ def r1_score_order(run):
             real.append(r)
         else:
             sentinels.append(r)
-    real_ret = single(real, 'return of a score tuple', ms.qual)
-    elts = real_ret.value.elts
-    if len(elts) != 5:
-        raise UnknownIdiom('match_score returns a %d-tuple' % len(elts))
+    if not real:
+        raise AnchorError('match_score: no return of a score tuple found')
+    for r in real:
+        if len(r.value.elts) != 5:
+            raise UnknownIdiom('match_score returns a %d-tuple' % len(r.value.elts))
 
-    # (a) components by role
-    found = []
-    for i, e in enumerate(elts):
-        attrs, ops = roles.features(e)
-        role = _role_of(attrs, ops)
-        if role is None:
-            raise UnknownIdiom('match_score: component %d (%s) depends on %s via %s - no known role' % (
-                i + 1, short(e, 40), sorted(attrs), sorted(ops)))
-        found.append(role)
-        run.check(role == i, 'score component %d is the %s' % (i + 1, ROLE_DOC[i]), ms, real_ret.value,
-                  witness=['component %d = %s depends on %s %s -> %s' % (i + 1, short(e, 40), sorted(attrs), sorted(ops), ROLE_DOC[role])],
-                  runtime_witness='two ranges that differ in criteria %d and %d are ranked in the wrong order' % (min(i, role) + 1, max(i, role) + 1))
-    by_role = {r: elts[i] for i, r in enumerate(found)}
-    if len(by_role) != 5:
-        raise UnknownIdiom('match_score: roles %s do not cover the five criteria' % found)
+    # (a) components by role, on EVERY return of a real score.  A component is
+    #     either derived (def-use) from its documented source, or it is a
+    #     literal; literals are decided in (b2) from the branch outcomes that
+    #     dominate the return.
+    comps: Dict[int, List[object]] = {}
+    for ret in real:
+        elts = ret.value.elts
+        found: List[object] = []
+        for i, e in enumerate(elts):
+            if _is_num_literal(e):
+                found.append('const')
+                continue
+            attrs, ops = roles.features(e)
+            role = _role_of(attrs, ops)
+            if role is None:
+                raise UnknownIdiom('match_score: component %d (%s) depends on %s via %s - no known role' % (
+                    i + 1, short(e, 40), sorted(attrs), sorted(ops)))
+            found.append(role)
+            run.check(role == i, 'score component %d is the %s' % (i + 1, ROLE_DOC[i]), ms, ret.value,
+                      witness=['component %d = %s depends on %s %s -> %s' % (i + 1, short(e, 40), sorted(attrs), sorted(ops), ROLE_DOC[role])],
+                      runtime_witness='two ranges that differ in criteria %d and %d are ranked in the wrong order' % (min(i, role) + 1, max(i, role) + 1))
+        if 'const' not in found and sorted(found) != [0, 1, 2, 3, 4]:
+            raise UnknownIdiom('match_score: roles %s do not cover the five criteria' % found)
+        comps[id(ret)] = found
+
+    def comp_with_role(ret, role):
+        found, elts = comps[id(ret)], ret.value.elts
+        if found[role] == role:
+            return elts[role]
+        for i, c in enumerate(found):
+            if c == role:
+                return elts[i]
+        return None
 
     # (b) polarity: exact beats wildcard, exact parameter set beats extraneous, more matching params beat fewer
     mins: Dict[int, float] = {}
-    for role in (0, 1):
-        e = by_role[role]
-        if not isinstance(e, ast.Name):
-            raise UnknownIdiom('match_score: %s component is %s' % (ROLE_DOC[role], short(e, 40)))
-        wild, exact = _wild_exact_values(roles, e.id)
-        mins[role] = min(wild + exact)
-        run.check(max(wild) < min(exact), 'an exact %s scores above a wildcard match' % ('main type' if role == 0 else 'subtype'),
-                  ms, '%s: wildcard %s exact %s' % (e.id, sorted(set(wild)), sorted(set(exact))),
-                  where=ms.loc(_assignments(ms.node, e.id)[0][0]),
-                  runtime_witness='text/* preferred over text/plain for media type text/plain')
-    e2 = _expand_name(ms, by_role[2])
-    if isinstance(e2, ast.IfExp) and _is_const_num(e2.body) and _is_const_num(e2.orelse):
-        test, a, b = e2.test, e2.body.value, e2.orelse.value
-        if isinstance(test, ast.UnaryOp) and isinstance(test.op, ast.Not):
-            test, a, b = test.operand, b, a
-        if not _is_xor_expr(ms, test):
-            raise UnknownIdiom('match_score: exact-parameter test %s' % short(e2.test, 60))
-        mins[2] = min(a, b)
-        run.check(a < b, 'an empty symmetric difference of parameter names scores above a non-empty one', ms, e2,
-                  runtime_witness='a range with extraneous parameters outranks the exactly matching range')
-    else:
-        raise UnknownIdiom('match_score: exact-parameter component %s' % short(e2, 60))
-    e3 = by_role[3]
-    neg = isinstance(e3, ast.UnaryOp) and isinstance(e3.op, ast.USub)
-    core = e3.operand if neg else e3
-    if not (isinstance(core, ast.Call) and isinstance(core.func, ast.Name) and core.func.id == 'len' and len(core.args) == 1):
-        raise UnknownIdiom('match_score: matching-parameter count %s' % short(e3, 60))
-    mins[3] = 0
-    run.check(not neg, 'the score grows with the number of matching parameters', ms, e3)
-    e4 = by_role[4]
-    run.check(is_self_attr(e4, 'quality'), 'the last component is the q of this range itself', ms, e4)
+    done: Set[Tuple[int, str]] = set()
+    exact_vals: Set[Tuple[float, float]] = set()   # (value when the symmetric difference is non-empty, value when it is empty)
+
+    def lower(role, v):
+        mins[role] = v if role not in mins else min(mins[role], v)
+
+    for ret in real:
+        for role in (0, 1):
+            e = comp_with_role(ret, role)
+            if e is None or (role, unparse(e)) in done:
+                continue
+            done.add((role, unparse(e)))
+            if not isinstance(e, ast.Name):
+                raise UnknownIdiom('match_score: %s component is %s' % (ROLE_DOC[role], short(e, 40)))
+            wild, exact = _wild_exact_values(roles, e.id)
+            lower(role, min(wild + exact))
+            run.check(max(wild) < min(exact), 'an exact %s scores above a wildcard match' % ('main type' if role == 0 else 'subtype'),
+                      ms, '%s: wildcard %s exact %s' % (e.id, sorted(set(wild)), sorted(set(exact))),
+                      where=ms.loc(_assignments(ms.node, e.id)[0][0]),
+                      runtime_witness='text/* preferred over text/plain for media type text/plain')
+        e = comp_with_role(ret, 2)
+        if e is not None and (2, unparse(e)) not in done:
+            done.add((2, unparse(e)))
+            e2 = _expand_name(ms, e)
+            if isinstance(e2, ast.IfExp) and _is_const_num(e2.body) and _is_const_num(e2.orelse):
+                test, a, b = e2.test, e2.body.value, e2.orelse.value
+                if isinstance(test, ast.UnaryOp) and isinstance(test.op, ast.Not):
+                    test, a, b = test.operand, b, a
+                if not _is_xor_expr(ms, test):
+                    raise UnknownIdiom('match_score: exact-parameter test %s' % short(e2.test, 60))
+                lower(2, min(a, b))
+                exact_vals.add((a, b))
+                run.check(a < b, 'an empty symmetric difference of parameter names scores above a non-empty one', ms, e2,
+                          runtime_witness='a range with extraneous parameters outranks the exactly matching range')
+            else:
+                raise UnknownIdiom('match_score: exact-parameter component %s' % short(e2, 60))
+        e3 = comp_with_role(ret, 3)
+        if e3 is not None and (3, unparse(e3)) not in done:
+            done.add((3, unparse(e3)))
+            e3 = _expand_name(ms, e3)
+            neg = isinstance(e3, ast.UnaryOp) and isinstance(e3.op, ast.USub)
+            core = _expand_name(ms, e3.operand) if neg else e3
+            if not (isinstance(core, ast.Call) and isinstance(core.func, ast.Name) and core.func.id == 'len' and len(core.args) == 1):
+                raise UnknownIdiom('match_score: matching-parameter count %s' % short(e3, 60))
+            lower(3, 0)
+            run.check(not neg, 'the score grows with the number of matching parameters', ms, e3)
+        e4 = comp_with_role(ret, 4)
+        if e4 is not None and (4, unparse(e4)) not in done:
+            done.add((4, unparse(e4)))
+            run.check(is_self_attr(_expand_name(ms, e4), 'quality'), 'the last component is the q of this range itself', ms, e4)
+    if not all(r in mins for r in range(4)):
+        raise UnknownIdiom('match_score: no return derives all of the first four criteria from their sources (%s)' % sorted(mins))
+
+    # (b2) literal components of a real score
+    for ret in real:
+        if 'const' in comps[id(ret)]:
+            _literal_components(run, ms, cfg, roles, other, ret, comps[id(ret)], exact_vals, lower)
 
     # (c) sentinel
     if not sentinels:
@@ -330,7 +604,7 @@ def r1_score_order(run):
                   runtime_witness='quality() of a non-matching media type is non-zero')
 
     # (d) mismatch edges never reach the real score
-    real_nodes = cfg.nodes_for(real_ret)
+    real_nodes = [nid for ret in real for nid in cfg.nodes_for(ret)]
     if not real_nodes:
         raise AnchorError('match_score: score return unreachable')
 
@@ -791,6 +1065,10 @@ def r5_client_negotiation(run):
 DATA = 'data'
 RESOLVER = '_resolve'
 MUTATORS = {'update', 'pop', 'popitem', 'clear', 'setdefault', '__setitem__', '__delitem__', '__ior__'}
+# writers that can store several items and raise in between (dict.update is not
+# atomic: items consumed before the source raised stay stored)
+BULK_MUTATORS = {'update', '__ior__', '__init__'}
+_MATERIALISING = ('dict', 'list', 'tuple', 'set', 'frozenset', 'sorted')
 
 
 class _StdClass:
@@ -934,6 +1212,10 @@ class _Hierarchy:
                     if s not in self.mro:
                         self.mro.append(s)
         self._writer_memo: Dict[int, bool] = {}
+        self._bulk_memo: Dict[int, bool] = {}
+        # id(statement) -> 'item' (one atomic store/removal) | 'bulk' (one statement that can fail part-way)
+        #                  | 'loop' (an atomic store repeated by an enclosing loop)
+        self.site_kind: Dict[int, str] = {}
 
     def defs_in(self, k: str) -> Dict[str, _MethodDef]:
         out = {}
@@ -1024,7 +1306,17 @@ class _Hierarchy:
         al = self._aliases(d)
         out = []
 
-        def direct(stmt) -> Optional[str]:
+        par = enclosing_map(d.node)
+
+        def in_comprehension(node, stmt) -> bool:
+            cur = par.get(id(node))
+            while cur is not None and cur is not stmt:
+                if isinstance(cur, (ast.ListComp, ast.SetComp, ast.DictComp, ast.GeneratorExp)):
+                    return True
+                cur = par.get(id(cur))
+            return False
+
+        def direct(stmt) -> Optional[Tuple[str, str]]:
             tgts = []
             if isinstance(stmt, ast.Assign):
                 tgts = list(stmt.targets)
@@ -1036,37 +1328,80 @@ class _Hierarchy:
             flat = []
             for t in tgts:
                 flat.extend(t.elts if isinstance(t, (ast.Tuple, ast.List)) else [t])
+            merge = isinstance(stmt, ast.AugAssign) and isinstance(stmt.op, ast.BitOr)
             for t in flat:
                 if self._is_self_data(t, s):
-                    return 'rebinds or updates self.%s' % DATA
+                    return 'rebinds or updates self.%s' % DATA, 'bulk' if merge else 'item'
                 if isinstance(t, ast.Subscript) and self._is_self_data(t.value, s, al):
-                    return 'writes an item of self.%s' % DATA
+                    return 'writes an item of self.%s' % DATA, 'item'
                 if isinstance(stmt, ast.AugAssign) and isinstance(t, ast.Name) and t.id in al:
-                    return 'updates an alias of self.%s in place' % DATA
+                    return 'updates an alias of self.%s in place' % DATA, 'bulk' if merge else 'item'
             for c in walk_self(stmt):
                 if not isinstance(c, ast.Call):
                     continue
                 f = c.func
-                if isinstance(f, ast.Attribute) and f.attr in MUTATORS and self._is_self_data(f.value, s, al):
-                    return 'calls self.%s.%s()' % (DATA, f.attr)
-                if isinstance(f, ast.Attribute) and f.attr == 'update' and isinstance(f.value, ast.Attribute) and f.value.attr == '__dict__' \
+                why = kind = None
+                if isinstance(f, ast.Attribute) and f.attr in (MUTATORS | BULK_MUTATORS) and self._is_self_data(f.value, s, al):
+                    why, kind = 'calls self.%s.%s()' % (DATA, f.attr), 'bulk' if f.attr in BULK_MUTATORS else 'item'
+                elif isinstance(f, ast.Attribute) and f.attr in (MUTATORS | BULK_MUTATORS) and isinstance(f.value, ast.Name) and f.value.id == 'dict' \
+                        and c.args and self._is_self_data(c.args[0], s, al):
+                    why, kind = 'calls dict.%s(self.%s, ...)' % (f.attr, DATA), 'bulk' if f.attr in BULK_MUTATORS else 'item'
+                elif isinstance(f, ast.Attribute) and f.attr == 'update' and isinstance(f.value, ast.Attribute) and f.value.attr == '__dict__' \
                         and isinstance(f.value.value, ast.Name) and f.value.value.id == s:
-                    return 'updates self.__dict__'
-                if isinstance(f, ast.Name) and f.id in ('setattr', 'delattr') and len(c.args) >= 2 and isinstance(c.args[0], ast.Name) \
+                    why, kind = 'updates self.__dict__', 'item'
+                elif isinstance(f, ast.Name) and f.id in ('setattr', 'delattr') and len(c.args) >= 2 and isinstance(c.args[0], ast.Name) \
                         and c.args[0].id == s and isinstance(c.args[1], ast.Constant) and c.args[1].value == DATA:
-                    return '%s(self, %r)' % (f.id, DATA)
-                t = self.base_call_target(d, c)
-                if t is not None and self.is_writer(t):
-                    return 'calls the shadowed %s, which writes self.%s directly' % (t.qual, DATA)
+                    why, kind = '%s(self, %r)' % (f.id, DATA), 'item'
+                else:
+                    t = self.base_call_target(d, c)
+                    if t is not None and self.is_writer(t):
+                        why = 'calls the shadowed %s, which writes self.%s directly' % (t.qual, DATA)
+                        kind = 'bulk' if self.is_bulk_writer(t) else 'item'
+                if why:
+                    if in_comprehension(c, stmt):
+                        kind = 'bulk'
+                    return why, kind
             return None
 
         for n in walk_self(d.node):
             if isinstance(n, (ast.Assign, ast.AugAssign, ast.AnnAssign, ast.Delete, ast.Expr, ast.Return)):
-                why = direct(n)
-                if why:
+                r = direct(n)
+                if r:
+                    why, kind = r
+                    if kind == 'item':
+                        cur = par.get(id(n))
+                        while cur is not None and cur is not d.node:
+                            if isinstance(cur, (ast.For, ast.AsyncFor, ast.While)):
+                                kind = 'loop'
+                                break
+                            cur = par.get(id(cur))
+                    self.site_kind[id(n)] = kind
                     out.append((n, why))
         out.sort(key=lambda x: (x[0].lineno, x[0].col_offset))
         return out
+
+    def is_bulk_writer(self, d: _MethodDef) -> bool:
+        """Some direct write of `d` can leave the mapping partly updated when it raises."""
+        k = id(d.node)
+        if k not in self._bulk_memo:
+            self._bulk_memo[k] = False
+            self._bulk_memo[k] = any(self.site_kind.get(id(st)) != 'item' for st, _ in self.write_sites(d))
+        return self._bulk_memo[k]
+
+    def materialised(self, d: _MethodDef, e, depth=0) -> bool:
+        """`e` is a builtin container built before the loop runs: iterating it cannot raise part-way."""
+        if depth > 6:
+            return False
+        if isinstance(e, (ast.Dict, ast.List, ast.Tuple, ast.Set, ast.Constant)):
+            return True
+        if isinstance(e, ast.Call) and isinstance(e.func, ast.Name) and e.func.id in _MATERIALISING:
+            return True
+        if isinstance(e, ast.Call) and isinstance(e.func, ast.Attribute) and e.func.attr in ('items', 'keys', 'values', 'copy') and not e.args:
+            return self.materialised(d, e.func.value, depth + 1)
+        if isinstance(e, ast.Name):
+            binds = _assignments(d.node, e.id)
+            return bool(binds) and all(v is not None and self.materialised(d, v, depth + 1) for _, v in binds)
+        return False
 
     def is_writer(self, d: _MethodDef) -> bool:
         k = id(d.node)
@@ -1113,8 +1448,10 @@ def r3_cache_coherence(run):
     if not any(k not in p.classes for k in H.mro):
         raise AnchorError('%s no longer derives from a stdlib mapping class' % HANDLERS)
     run.extra['c11_r3_mro'] = H.mro
-    run.assume('a statement that writes the mapping either completes or raises before changing it (no partial writes); '
-               'callees that merely receive self.data as an argument do not mutate it')
+    run.assume('a single-item write of the mapping (d[k] = v, del d[k], pop, setdefault, clear, rebinding) either completes or raises '
+               'before changing it; bulk writes (update, |=, dict.__init__, a comprehension or a loop of stores) can raise after '
+               'having stored some items; callees that merely receive self.data as an argument do not mutate it '
+               '(except the unbound dict.<mutator>(self.data, ...) forms)')
 
     # anchor: the resolver is a per-call cached closure
     cr = p.func(HANDLERS + '._create_resolver')
@@ -1168,47 +1505,87 @@ def r3_cache_coherence(run):
         site_ids = {id(s): w for s, w in sites}
         sn = d.selfname
 
-        def lab(n, site_ids=site_ids, sn=sn):
+        kinds = {k: H.site_kind.get(k, 'item') for k in site_ids}
+        has_bulk = any(k != 'item' for k in kinds.values())
+
+        def lab(n, site_ids=site_ids, sn=sn, kinds=kinds):
             out = []
             if n.kind == 'stmt' and _is_fresh_resolver(n.ast, sn):
                 out.append('FRESH')
             for c in n.calls():
                 if _is_clear(c, sn):
+                    # the clearing itself cannot fail half-way: on the exceptional edges out of this node a
+                    # pending partial write counts as answered, the normal bookkeeping happens on completion
+                    out.append('^UNPARTIAL')
                     out.append('CLEAR')
                 elif isinstance(c.func, ast.Attribute) and c.func.attr == RESOLVER and isinstance(c.func.value, ast.Name) and c.func.value.id == sn:
                     out.append('RESOLVE')
             if n.kind == 'stmt' and id(n.ast) in site_ids:
-                out.append('WRITE')
+                k = kinds[id(n.ast)]
+                if k == 'bulk':
+                    out.append('^PARTIAL')      # items may already be stored when the statement raises
+                out.append('WRITEL' if k == 'loop' else 'WRITE')
             return out
 
         # state: 'D'/'c' (mapping written since the last reset / clean) + 'F'/'o' (resolver created in this call
-        # and not yet used / older resolver).  A plain string, because the engine formats states with '%s'.
+        # and not yet used / older resolver) + 'X'/'-' (a bulk write has stored items that no cache_clear() has
+        # answered yet: leaving by an exception now keeps them with a stale cache / no such items).
+        # A plain string, because the engine formats states with '%s'.
         def delta(st, l):
-            dirty, fresh = st[0] == 'D', st[1] == 'F'
+            dirty, fresh, part = st[0] == 'D', st[1] == 'F', st[2] == 'X'
             if l == 'FRESH':
-                dirty, fresh = False, True
+                dirty, fresh, part = False, True, False
             elif l == 'CLEAR':
-                dirty = False
+                dirty = part = False
+            elif l == 'UNPARTIAL':
+                part = False
             elif l == 'RESOLVE':
                 fresh = False
             elif l == 'WRITE':
                 dirty = dirty or not fresh
-            return ('D' if dirty else 'c') + ('F' if fresh else 'o')
+            elif l == 'WRITEL':
+                dirty = dirty or not fresh
+                part = part or not fresh
+            elif l == 'PARTIAL':
+                part = part or not fresh
+            return ('D' if dirty else 'c') + ('F' if fresh else 'o') + ('X' if part else '-')
 
-        cex, _, _ = flow.typestate(cfg, lab, delta, 'co', exit_ok=lambda st: st[0] != 'D')
+        # a loop over a container that was built before the loop started does not raise between two stores
+        quiet_iters = {n.id for n in cfg.live_nodes() if n.kind == 'iter' and isinstance(n.stmt, (ast.For, ast.AsyncFor))
+                       and H.materialised(d, n.stmt.iter)}
+
+        def edge_delta(st, a, b, l, quiet_iters=quiet_iters):
+            if l == 'exc' and a in quiet_iters:
+                return None
+            return st
+
+        cex, _, _ = flow.typestate(cfg, lab, delta, 'co-', exit_ok=lambda st: st[0] != 'D', xexit_ok=lambda st: st[2] != 'X',
+                                   edge_delta=edge_delta)
         if cex is None:
             run.ok('%s: after its last direct write (%s) every normal exit is preceded by %s.cache_clear() or works on a resolver '
-                   'created in the same call' % (f.qual, '; '.join(sorted({w for _, w in sites})), RESOLVER), f.loc(), sites[0][0])
+                   'created in the same call%s' % (f.qual, '; '.join(sorted({w for _, w in sites})), RESOLVER,
+                                                   '; so is every exceptional exit after its bulk writes' if has_bulk else ''),
+                   f.loc(), sites[0][0])
         else:
             path, st, reason = cex
             last_write = None
             for nid in path:
-                if 'WRITE' in lab(cfg.node(nid)):
+                if id(cfg.node(nid).ast) in site_ids and cfg.node(nid).kind == 'stmt':
                     last_write = cfg.node(nid)
             cons = last_write.ast if last_write is not None else sites[0][0]
-            run.fail('%s %s and can return without clearing the resolver cache' % (f.qual, site_ids.get(id(cons), 'writes the mapping')),
-                     f, cons, where=f.loc(cons), witness=flow.describe_path(cfg, path),
-                     runtime_witness='resolve a type, change its handler through %s, resolve again -> the old handler' % d.name)
+            if reason.startswith('exceptional'):
+                how = 'inside a loop that can raise after some of its stores' if kinds.get(id(cons)) == 'loop' \
+                    else '- a write that can store some items and then raise -'
+                run.fail('%s %s %s and the exception leaves without clearing the '
+                         'resolver cache (the clearing must also run on the exceptional exits, e.g. in a finally, or the items must go '
+                         'through the overridden single-item methods)' % (f.qual, site_ids.get(id(cons), 'writes the mapping'), how),
+                         f, cons, where=f.loc(cons), witness=flow.describe_path(cfg, path),
+                         runtime_witness='resolve a type; call %s with a source that yields a new handler for it and then raises; '
+                                         'resolve again -> the old handler' % d.name)
+            else:
+                run.fail('%s %s and can return without clearing the resolver cache' % (f.qual, site_ids.get(id(cons), 'writes the mapping')),
+                         f, cons, where=f.loc(cons), witness=flow.describe_path(cfg, path),
+                         runtime_witness='resolve a type, change its handler through %s, resolve again -> the old handler' % d.name)
     run.extra['c11_r3_methods'] = n_checked
 
     # (b) the resolver attribute has exactly one kind of writer: __init__ creating a fresh one
